@@ -36,6 +36,22 @@ def check_run(chk, r):
                       "env_step": {"prev_obs": prev.tolist(), "action": np.asarray(act).tolist(), "reward": rew, "next_obs": nxt.tolist(), "terminated": term,
                                    "truncated": trunc}})
             return
+    # --- what the buffer holds when the routine returns: the last min(n, capacity) environment transitions, oldest first
+    if name != "mrq" and res["buffer"] is not None and steps:
+        kept = tr.stored_rows(res)
+        exp = steps[-len(kept):] if kept else []
+        bad = len(kept) != min(len(steps), res["buffer"].buffer_size)
+        for (o, a_, rw, no, te), e in zip(kept, exp):
+            bad = bad or not (np.array_equal(np.asarray(o, dtype=np.float32).reshape(-1), e[1]) and np.array_equal(np.asarray(no, dtype=np.float32).reshape(-1), e[4])
+                              and float(rw) == e[3] and bool(te) == e[5])
+        if bad:
+            chk.fail(f"C01:train_{name}:buffer-content", "the replay buffer returned by the routine does not hold the last min(steps, capacity) environment transitions",
+                     {"case": case, "buffer_rows": [[np.asarray(o).tolist(), float(rw), np.asarray(no).tolist(), bool(te)] for o, _, rw, no, te in kept[:6]],
+                      "expected_rows": [[e[1].tolist(), e[3], e[4].tolist(), e[5]] for e in exp[:6]]})
+            return
+        chk.count("buffer_contents_checked")
+        if len(steps) > res["buffer"].buffer_size:
+            chk.count("buffer_contents_checked_after_wrap")
     # --- the acting policy is conditioned on the same current observation (DQN family: greedy calls)
     gi = 0
     sampled_next = False
@@ -135,10 +151,33 @@ def collectors(chk, rng, n):
                          {"case": case, "env": bad[0], "t": bad[1], "kept": bad[2], "expected": bad[3]})
             if int(gstep) != T * N:
                 chk.fail("C01:a2c.collect_trajectories:count", "returned step counter differs from steps * envs", {"case": case, "returned": int(gstep)})
-            impl_rows = [[[[int(rb.buffer["obs"][t][j][0]), int(rb.buffer["obs"][t][j][1])], int(round(float(rb.buffer["rewards"][t][j]) * 4)),
-                           bool(rb.buffer["terminations"][t][j]), bool(rb.buffer["truncations"][t][j])] for j in range(N)] for t in range(T)]
-            exprs.append(f"(let ((rows, _), _) = M.a2c_run {nlit(T)} {llit(scripts, lc.script_ml)} in sl (sl {arow}) rows)")
-            recs.append(("a2c.collect_trajectories", case, impl_rows))
+            def rows_of(b_):
+                return [[[[int(b_.buffer["obs"][t][j][0]), int(b_.buffer["obs"][t][j][1])], int(round(float(b_.buffer["rewards"][t][j]) * 4)),
+                          bool(b_.buffer["terminations"][t][j]), bool(b_.buffer["truncations"][t][j])] for j in range(N)] for t in range(T)]
+            impl_rows = rows_of(rb)
+            # a second rollout continued from the returned observation, as train_a2c does: it must start from what the environments returned last
+            ok2, out2 = chk.impl_call("C01:a2c.collect_trajectories:raised", case, a2c.collect_trajectories, envs, pol, jax.random.key(i + 1), last_obs, T, None, int(gstep))
+            if ok2:
+                for j in range(N):       # spec: rows of the second rollout against the environment's own log
+                    cur, rows2 = None, []
+                    for e in [e for e in envs.envs[j].log if e[0] in ("step", "reset")]:
+                        if e[0] == "reset":
+                            if cur is not None:
+                                rows2.append(e[1] * 0 + cur)
+                            cur = e[1]
+                        else:
+                            rows2.append(e[1])
+                            cur = e[4]
+                    for t in range(T, min(2 * T, len(rows2))):
+                        o = np.asarray(out2[0].buffer["obs"][t - T][j], dtype=np.float32)
+                        if not np.array_equal(o, rows2[t]):
+                            chk.fail("C01:a2c.collect_trajectories:kept-transition", "a row of a rollout continued from the returned observation does not start from the "
+                                     "observation the environment returned last", {"case": case, "env": j, "t_in_second_rollout": t - T, "kept": o.tolist(), "expected": rows2[t].tolist()})
+                            break
+                impl_rows = impl_rows + rows_of(out2[0])
+                last_tags = [[int(np.asarray(out2[1])[j][0]), int(np.asarray(out2[1])[j][1])] for j in range(N)]
+                exprs.append(f"(let ((rows, _), last) = M.a2c_run {nlit(2 * T)} {llit(scripts, lc.script_ml)} in \"[\" ^ sl (sl {arow}) rows ^ \",\" ^ sl (sp sn sn) last ^ \"]\")")
+                recs.append(("a2c.collect_trajectories (two consecutive rollouts, returned observation)", case, [impl_rows, last_tags]))
         # --- PPO collect_trajectories (SAME_STEP autoreset)
         envs = gym.vector.SyncVectorEnv([(lambda s=scripts[j], j=j: ScriptEnv(s, env_id=j, discrete=2, reward_scale=0.25)) for j in range(N)],
                                         autoreset_mode=gym.vector.AutoresetMode.SAME_STEP)
